@@ -2669,7 +2669,7 @@ fn main() {
     };
 
     // 1. grammar-driven programs (tree known in advance) and mutations of them
-    let n_gen = if o.thorough() { 160_000 } else { 2_600 };
+    let n_gen = if o.thorough() { 160_000 } else { 2_000 };
     let mut rng = Rng::new(o.seed ^ 0xC06);
     for k in 0..n_gen {
         let s = rng.next();
@@ -2757,6 +2757,10 @@ fn main() {
     for t in TRIGGERS {
         for c in &reps {
             for (ci, ctx) in CONTEXTS.iter().enumerate() {
+                // quick: every (trigger, context) pair with half of the representative characters
+                if !o.thorough() && (ci + (*c as usize)) % 2 != 0 {
+                    continue;
+                }
                 if !mine(&mut idx) {
                     continue;
                 }
@@ -2799,7 +2803,7 @@ fn main() {
         }
     }
     // 7. command lines: scripts of the structural model's fragment in free surface form, and mutations
-    let n_lines = if o.thorough() { 60_000 } else { 400 };
+    let n_lines = if o.thorough() { 60_000 } else { 300 };
     let mut lrng = Rng::new(o.seed ^ 0x11E5_C06);
     for k in 0..n_lines {
         let s = lrng.next();
